@@ -8,6 +8,7 @@
 //	rec(name, v)        append the canonical form of v to the log `name` (mutex protected, total order per log)
 //	rec2(name, k, v)    append [k, v]
 //	yield()             runtime.Gosched()
+//	await(n)            blocks until n values have been recorded
 //	boom(msg)           a Go panic inside a builtin (tests Thread's recover)
 //	fail(msg)           returns a raised error object
 //	ident(v...)         returns its argument (list of its arguments): a builtin that can be spawned directly
@@ -42,6 +43,7 @@ type request struct {
 	Yield     uint64 `json:"yield"`
 	TimeoutMs int    `json:"timeout_ms"`
 	MaxLog    int    `json:"max_log"`
+	Gap       int    `json:"gap"` // >0: the first Gap goroutines inside ForIter wait for each other between Next and Entry
 }
 
 type response struct {
@@ -51,6 +53,8 @@ type response struct {
 	Logs     map[string][]interface{} `json:"logs"`
 	Ms       int64                    `json:"ms"`
 	Overflow bool                     `json:"overflow"`
+	GapHook  bool                     `json:"gap_hook"`
+	CtxDone  bool                     `json:"ctx_done"` // the evaluation's context had ended when Eval returned
 }
 
 func canon(o object.Object, depth int) interface{} {
@@ -156,6 +160,24 @@ func (r *recorder) globals() map[string]any {
 			r.maybeYield()
 			return object.Nil
 		}),
+		"await": object.NewBuiltin("await", func(ctx context.Context, args ...object.Object) object.Object {
+			// blocks until at least n values have been recorded (or the context ends)
+			n := 0
+			if len(args) > 0 {
+				if i, ok := args[0].(*object.Int); ok {
+					n = int(i.Value())
+				}
+			}
+			for {
+				r.mu.Lock()
+				t := r.total
+				r.mu.Unlock()
+				if t >= n || ctx.Err() != nil {
+					return object.Nil
+				}
+				time.Sleep(200 * time.Microsecond)
+			}
+		}),
 		"yield": object.NewBuiltin("yield", func(ctx context.Context, args ...object.Object) object.Object {
 			runtime.Gosched()
 			return object.Nil
@@ -232,6 +254,10 @@ func runOne(req request) (resp response) {
 	ctx, cancel := context.WithTimeout(context.Background(), to)
 	defer cancel()
 	rc.cancel = cancel
+	resp.GapHook = gapSupported
+	if req.Gap > 0 {
+		defer installGap(req.Gap)()
+	}
 	t0 := time.Now()
 	type outcome struct {
 		res object.Object
@@ -268,6 +294,7 @@ func runOne(req request) (resp response) {
 		hang = true
 	}
 	resp.Ms = time.Since(t0).Milliseconds()
+	resp.CtxDone = ctx.Err() != nil
 	rc.mu.Lock()
 	resp.Logs = map[string][]interface{}{}
 	for k, v := range rc.logs {
